@@ -166,7 +166,9 @@ impl Harness for C13 {
           } else if terminal.is_some() {
             r.free = true; // joining a terminated plain subject: not fixed by the statement
           }
-          let was_live = r.live;
+          // a replay subscriber attaches to the shared subject before its history is replayed: it
+          // counts as an arrival even if the history alone satisfies it (take(1))
+          let was_live = r.live || (self.kind == Ck::Replay && !r.free);
           robs[j] = Some(r);
           // ref_count / replay: the first subscriber connects
           if self.kind != Ck::Publish && was_live && !src_live && terminal.is_none() {
